@@ -18,7 +18,9 @@ Record case := mkSweep {
   w_svc : N;            (* 1 vnc, 2 ssh-simulator, 3 ipp, 4 ftp data channel without certificate, 5 with,
                            6 the real server (recovered panics, shared port), 7 redis, 8 ldap, 9 snmp, 10 memcached,
                            11 telnet, 12 dns-proxy/udp, 13 dns-proxy/tcp, 14 copy/udp, 15 copy/tcp, 16 http-proxy/tcp
-                           (scenario = backend: 0 refuses, 1 silent, 2 closes, 3 resets, 4 answers) *)
+                           (scenario = backend: 0 refuses, 1 silent, 2 closes, 3 resets, 4 answers),
+                           17 tftp uploads, 18 the real server with its socket listener on UDP ports: datagrams
+                           of buffer-boundary sizes, one observation per port and one at the end *)
   w_scenario : N;       (* which client behaviour (see the harness) *)
   w_silent : bool;      (* the client goes silent instead of closing *)
   w_n : N;
@@ -53,6 +55,10 @@ Definition SIG_PROXY_BACKEND := 19%N.
    whose state the service still holds (last block not acknowledged, or a further DATA block
    from the same address still accepted) *)
 Definition SIG_TFTP_UPLOAD_KEPT := 20%N.
+
+(* the real server, UDP ports (service 18): a handler goroutine that is still there after the
+   bounded wait and burns CPU - it spins on a datagram that has long been consumed *)
+Definition SIG_DGRAM_SPIN_DEPLOYED := 21%N.
 
 Definition all_back (k : case) : bool := forallb (fun o => (w_out o <? 2)%N) (w_obs k).
 
@@ -92,6 +98,7 @@ Definition case_sigs (k : case) : list N :=
          else if (w_out o =? 3)%N && ((w_svc k =? 4) || (w_svc k =? 5))%N && (w_scenario k =? 17)%N then SIG_FTP_ACTIVE_NO_DEADLINE
          else if (w_out o =? 2)%N && (w_svc k =? 2)%N && (w_scenario k =? 4)%N then SIG_SSH_KEYSEQ
          else if (w_out o =? 3)%N && ((w_svc k =? 13) || (w_svc k =? 16))%N && (w_scenario k =? 1)%N then SIG_PROXY_BACKEND
+         else if (w_out o =? 2)%N && (w_svc k =? 18)%N then SIG_DGRAM_SPIN_DEPLOYED
          else SIG_NO_RETURN]
       else (if w_gor o =? 0 then [] else [SIG_GOROUTINES]) ++
            (if w_lis o =? 0 then [] else [if (w_svc k =? 17)%N then SIG_TFTP_UPLOAD_KEPT else SIG_LISTENERS]) ++
